@@ -4,6 +4,7 @@ current tree and run the claimed checks against it. Prints which checks fire.
 usage: run_mutants.py [--class survivors|killed|benign|seeded|all] [--only ID] [--props C01,C02]"""
 import json, os, subprocess, sys, tempfile, shutil, concurrent.futures as cf
 here = os.path.dirname(os.path.dirname(os.path.abspath(__file__)))
+VERIF = os.environ.get('VERIF_BIN', here+'/bin/verif')
 args = sys.argv[1:]
 klass = 'all'; only = None; props = None
 i = 0
@@ -12,7 +13,7 @@ while i < len(args):
     elif args[i] == '--only': only = args[i+1]; i += 2
     elif args[i] == '--props': props = args[i+1].split(','); i += 2
     else: i += 1
-claimed = [l.split()[0] for l in subprocess.run([here+'/bin/verif','list'],capture_output=True,text=True).stdout.splitlines()]
+claimed = [l.split()[0] for l in subprocess.run([VERIF,'list'],capture_output=True,text=True).stdout.splitlines()]
 if props: claimed = [p for p in claimed if p in props]
 index = json.load(open(here+'/mutants/index.json'))
 items = []
@@ -49,7 +50,7 @@ def run(item):
         shutil.copy(here+'/known_findings.json', tmp)
         shutil.copy(here+'/properties.jsonl', tmp)
         for p in (claimed if '--own' not in args else [q for q in claimed if q == prop]):
-            r = subprocess.run([here+'/bin/verif','check',p,'--tier','quick','--no-evidence'],capture_output=True,text=True,errors='replace',env=env)
+            r = subprocess.run([VERIF,'check',p,'--tier','quick','--no-evidence'],capture_output=True,text=True,errors='replace',env=env)
             if r.returncode != 0:
                 fired.append(p)
                 for l in r.stdout.splitlines():
